@@ -33,3 +33,94 @@ structure WfTextTape (input : Bytes) (toks : List Tok) : Prop where
   scalars_increasing : (slices toks).Pairwise (fun s t => s.off input.length < t.off input.length)
 
 end Jomini.TextTape
+
+/-! ### abstract documents, fragment 1: flat `key op value` fields (C01_faithful / layout) -/
+namespace Jomini.TextTape
+
+/-- a scalar as the document model sees it: quoted or not, and its content bytes (for a quoted
+scalar: what stands between the quotes, escapes included). -/
+structure Scal where
+  quoted : Bool
+  bytes : Bytes
+deriving DecidableEq, Repr
+
+/-- the bytes of the scalar in the file. -/
+def Scal.text (s : Scal) : Bytes := if s.quoted then 34 :: (s.bytes ++ [34]) else s.bytes
+
+/-- well-formed scalar.  Quoted: the quote that ends the rendering is the first unescaped one.
+Unquoted: non-empty, no boundary byte, and the first byte is not a blank (`;`), `"` or `@`. -/
+def Scal.Valid (s : Scal) : Prop :=
+  if s.quoted then quoteClose (s.bytes ++ [34]) false = some s.bytes.length
+  else (∀ c ∈ s.bytes, isBoundary c = false) ∧
+    ∃ c r, s.bytes = c :: r ∧ isBlank c = false ∧ c ≠ 34 ∧ c ≠ 64
+
+def Op.text : Op → Bytes
+  | .eq => [61] | .lt => [60] | .le => [60, 61] | .gt => [62] | .ge => [62, 61]
+  | .ne => [33, 61] | .exact => [61, 61] | .exists_ => [63, 61]
+
+/-- `x` is empty or starts with a boundary byte (what has to follow an unquoted scalar). -/
+def StartsBoundary (x : Bytes) : Prop := x = [] ∨ ∃ c r, x = c :: r ∧ isBoundary c = true
+
+/-- a field with its layout: blanks before the key, before the operator and before the value. -/
+structure LField where
+  g0 : Bytes
+  key : Scal
+  g1 : Bytes
+  op : Op
+  g2 : Bytes
+  val : Scal
+
+def LField.render (f : LField) : Bytes :=
+  f.g0 ++ (f.key.text ++ (f.g1 ++ (f.op.text ++ (f.g2 ++ f.val.text))))
+
+/-- the document: fields, then trailing blanks `gt`. -/
+def renderFlat : List LField → Bytes → Bytes
+  | [], gt => gt
+  | f :: fs, gt => f.render ++ renderFlat fs gt
+
+/-- layout validity: gaps are blanks; an unquoted scalar is followed by nothing or a boundary byte
+(so `a ?= b` needs its blank and `;` cannot be glued to a scalar). -/
+def ValidFlat : List LField → Bytes → Prop
+  | [], gt => Blank gt
+  | f :: fs, gt =>
+    Blank f.g0 ∧ Blank f.g1 ∧ Blank f.g2 ∧ f.key.Valid ∧ f.val.Valid ∧
+    (f.key.quoted = false → StartsBoundary (f.g1 ++ f.op.text)) ∧
+    (f.val.quoted = false → StartsBoundary (renderFlat fs gt)) ∧
+    ValidFlat fs gt
+
+/-- the token of a scalar that is followed by `after` in the input. -/
+def Scal.tok (s : Scal) (after : Bytes) : Tok :=
+  if s.quoted then .quoted ⟨s.bytes.length + 1 + after.length, s.bytes⟩
+  else .unquoted ⟨s.bytes.length + after.length, s.bytes⟩
+
+def Op.toks : Op → List Tok
+  | .eq => []
+  | o => [.operator o]
+
+/-- the expected tape of a flat document (with the positions its layout implies). -/
+def tapeFlat : List LField → Bytes → List Tok
+  | [], _ => []
+  | f :: fs, gt =>
+    let after := renderFlat fs gt
+    [f.key.tok (f.g1 ++ (f.op.text ++ (f.g2 ++ (f.val.text ++ after))))] ++ f.op.toks ++
+      [f.val.tok after] ++ tapeFlat fs gt
+
+/-- forget where a scalar stands: what is left is the document's content. -/
+def Tok.erase : Tok → Tok
+  | .unquoted s => .unquoted ⟨0, s.bytes⟩
+  | .quoted s => .quoted ⟨0, s.bytes⟩
+  | .parameter s => .parameter ⟨0, s.bytes⟩
+  | .undefParameter s => .undefParameter ⟨0, s.bytes⟩
+  | .header s => .header ⟨0, s.bytes⟩
+  | t => t
+
+/-- the layout-free content tape of a flat document: keys, operators, scalar bytes with their
+quotedness, in document order. -/
+def contentFlat : List (Scal × Op × Scal) → List Tok
+  | [] => []
+  | (k, o, v) :: fs =>
+    [(k.tok []).erase] ++ o.toks ++ [(v.tok []).erase] ++ contentFlat fs
+
+def LField.content (f : LField) : Scal × Op × Scal := (f.key, f.op, f.val)
+
+end Jomini.TextTape
